@@ -1395,6 +1395,16 @@ def _addcmul(a, t1, t2, *, value=1, out=None):
     return _out(_obj(a) + to_P(value) * (_obj(t1) * _obj(t2)), out, "addcmul")
 
 
+@H("addcmul_")
+def _addcmul_i(self, t1, t2, *, value=1):
+    return _assign(self, _obj(self) + to_P(value) * (_obj(t1) * _obj(t2)), "addcmul_")
+
+
+@H("addcdiv_")
+def _addcdiv_i(self, t1, t2, *, value=1):
+    return _assign(self, _obj(self) + to_P(value) * (_obj(t1) / _obj(t2)), "addcdiv_")
+
+
 @H("addcdiv")
 def _addcdiv(a, t1, t2, *, value=1, out=None):
     return _out(_obj(a) + to_P(value) * (_obj(t1) / _obj(t2)), out, "addcdiv")
